@@ -303,7 +303,7 @@ def _val_same(ip, a, b, goals):
 
 # ------------------------------------------------------------------ discharge
 def _run_cli(cmd, text, timeout_s):
-    with tempfile.NamedTemporaryFile('w', suffix='.smt2', delete=False, dir=os.environ.get('PYVC_TMP', '/dev/shm')) as fh:
+    with tempfile.NamedTemporaryFile('w', suffix='.smt2', delete=False, dir=os.environ.get('PYVC_TMP') or ('/dev/shm' if os.path.isdir('/dev/shm') else None)) as fh:
         fh.write(text)
         fn = fh.name
     try:
@@ -355,7 +355,7 @@ def _z3_try(ob, timeout_ms):
 
 def _race(text, budget_s):
     """run cvc5, the z3 5.1 CLI and z3 4.8 on the same SMT-LIB text concurrently; the first 'unsat' wins"""
-    with tempfile.NamedTemporaryFile('w', suffix='.smt2', delete=False, dir=os.environ.get('PYVC_TMP', '/dev/shm')) as fh:
+    with tempfile.NamedTemporaryFile('w', suffix='.smt2', delete=False, dir=os.environ.get('PYVC_TMP') or ('/dev/shm' if os.path.isdir('/dev/shm') else None)) as fh:
         fh.write(text)
         fn = fh.name
     cmds = {'cvc5-1.0.3': ['/usr/bin/cvc5', '--strings-exp', '--tlimit=%d' % int(budget_s * 1000), fn],
